@@ -631,7 +631,8 @@ Lemma save_xref_obj s tr s' tr' :
     ser (PStreamData (merge_dict (xref_info_dict (lenN (refs s')) aw bw (lenN data))
                                  (trailer_dict tr (Z.of_N (lenN (refs s) + 2)) iref)) data) = Ok xs /\
     backend s' = pre ++ obj_header (lenN (refs s') - 1) 0 ++ xs ++ kw_endobj_nl ++ startxref_tail xpos /\
-    lenN pre = start s + xpos.
+    lenN pre = start s + xpos /\
+    iref = match t_info tr with Some d => Some (lenN (refs s), 0) | None => None end.
 Proof.
   intros Hwf0 H.
   pose proof (save_pre_wf ser s tr Hwf0) as Hwf.
@@ -662,6 +663,7 @@ Proof.
   replace (X + 1 - 1) with X by lia.
   split; [exact Es|]. split; [apply xset_same; lia|]. split; [exact Ex|].
   split; [rewrite <- !app_assoc; reflexivity|].
+  split; [|unfold iref; destruct (t_info tr); reflexivity].
   unfold lenN in *. rewrite app_length. unfold xpos, lenN. rewrite <- Hst. fold s1. lia.
 Qed.
 
@@ -689,7 +691,7 @@ Proof.
   set (tr := build_trailer cat info) in *.
   pose proof (save_pre_binv s4 tr I4) as (P1 & Q1 & Z1 & G1).
   pose proof (save_layout ser s4 tr s' tr' W4 Hb) as SL. cbv zeta in SL. destruct SL as (HA & HB & Hlen & _ & Hst' & _).
-  destruct (save_xref_obj s4 tr s' tr' W4 Hb) as (xpos & aw & bw & data & xs & pre & iref & Hws & Hxe & Hxs & Hbk & Hpre).
+  destruct (save_xref_obj s4 tr s' tr' W4 Hb) as (xpos & aw & bw & data & xs & pre & iref & Hws & Hxe & Hxs & Hbk & Hpre & _).
   rewrite S4 in *. cbn [N.add] in Hpre.
   set (s1 := save_pre s4 tr) in *. set (X := lenN (refs s1)) in *.
   assert (HX : lenN (refs s') - 1 = X) by lia.
